@@ -30,7 +30,7 @@ def pipeline_graph(g: List[List[int]]) -> Dict[str, Any]:
 
     from .srcpipe import SkeletonError, skeleton_of
 
-    out: Dict[str, Any] = {"outcome": "ok", "stage": "", "exc": "", "census": {}, "flat": {}, "skeleton": [], "skexc": ""}
+    out: Dict[str, Any] = {"outcome": "ok", "stage": "", "exc": "", "census": {}, "flat": {}, "skeleton": [], "skexc": "", "H": {}, "root": ""}
     try:
         out["stage"] = "build"
         scfg = decorate(g)
@@ -64,6 +64,10 @@ def pipeline_graph(g: List[List[int]]) -> Dict[str, Any]:
         out["flat"] = flat
         out["stage"] = "restructure"
         scfg.restructure()
+        from .project import project
+
+        st = project(scfg)
+        out["H"], out["root"] = st["H"], st["root"]
         out["stage"] = "scfg2ast"
         original = ast.parse("def f():\n    pass\n").body[0]
         fdef = SCFG2ASTTransformer().transform(original=original, scfg=scfg)
